@@ -86,7 +86,7 @@ Lemma step1_sim c m o :
     /\ (exists new, calls m' = new ++ calls m).
 Proof.
   intros Hmax I. pose proof I as [NR NS SAME LEN CAP SOFT].
-  destruct o as [k v|k|k d|k d|k|k d| | |e f|e|k| | | |d|d]; simpl step1.
+  destruct o as [k v|k|k d|k d|k|k d| | |e f|e|k| | | |d|d|f| |]; simpl step1.
   - (* SetItem *)
     destruct (setitem_sim c m k v Hmax I) as [m' [E [I' [A [C _]]]]]. rewrite E. simpl.
     exists m', (Ok ONone). split; [reflexivity|]. split; [assumption|]. split.
@@ -181,4 +181,15 @@ Proof.
   - (* NeDict *)
     eexists. eexists. split; [reflexivity|]. split; [assumption|]. split; [|now exists []].
     apply accept_det; [reflexivity|]. simpl. now rewrite (cache_eq_same_map c m d I).
+  - (* UpdateSelf *)
+    destruct (setitems_sim c f m Hmax I) as [m' [E [I' [A [C _]]]]]. rewrite E. simpl.
+    exists m', (Ok ONone). split; [reflexivity|]. split; [assumption|]. split.
+    + apply accept_det; [reflexivity|]. simpl. now rewrite A.
+    + exists []. now rewrite C.
+  - (* EqOther *)
+    eexists. eexists. split; [reflexivity|]. split; [assumption|]. split; [|now exists []].
+    apply accept_det; reflexivity.
+  - (* NeOther *)
+    eexists. eexists. split; [reflexivity|]. split; [assumption|]. split; [|now exists []].
+    apply accept_det; reflexivity.
 Qed.
